@@ -150,7 +150,7 @@ def _restart(case: dict) -> dict:
 
             path = os.path.join(env.scratch_dir(), f"c09-{os.getpid()}-{k}.db")
             shutil.copyfile(snaps.path(k), path)
-            w = World(path=path, ledger=[dict(r) for r in pre])
+            w = World(path=path, ledger=[dict(r) for r in pre], base_time=os.path.getmtime(snaps.path(k)))
             w.owns_file = True
             w.wf_id = w._exec_side("SELECT id FROM pipeline_executions LIMIT 1").fetchone()[0]
             w.run_recovery()
